@@ -16,9 +16,11 @@ def _instr_cost(u, push0=True):
     return R4.static_gas(name, value, push0, False), R4.item_bytes((name, value), push0)
 
 
-def search(sfs, max_len, max_height=None, max_states=400000, size_cap=None, push0=True):
+def search(sfs, max_len, max_height=None, max_states=400000, size_cap=None, push0=True, cost_override=None):
     """Returns dict: best[(criterion)] = min cost over realizing sequences of length <= max_len,
-    'min_len', 'witness' (one shortest sequence), 'exhausted' (False if the state budget was hit)."""
+    'min_len', 'witness' (one shortest sequence), 'witness_gas' (one sequence of minimal gas),
+    'exhausted' (False if the state budget was hit).  cost_override: id -> (gas, bytes), to steer the
+    witness (e.g. make one instruction free so that the cheapest sequence repeats it)."""
     instrs = sfs["user_instrs"]
     byid = {u["id"]: u for u in instrs}
     deps = [tuple(d) for d in sfs.get("dependencies", [])]
@@ -38,6 +40,9 @@ def search(sfs, max_len, max_height=None, max_states=400000, size_cap=None, push
     costs = {u["id"]: _instr_cost(u, push0) for u in instrs}
     if size_cap is not None:
         costs = {k: (g, min(b, size_cap)) for k, (g, b) in costs.items()}
+    if cost_override:
+        costs.update(cost_override)
+    witness_gas = None
     start = (tuple(str(x) for x in src), frozenset())
     layer = {start: (0, 0, ())}        # state -> (gas, bytes, witness)
     best = {"gas": None, "size": None, "length": None}
@@ -52,6 +57,8 @@ def search(sfs, max_len, max_height=None, max_states=400000, size_cap=None, push
                 if best["length"] is None:
                     best["length"] = depth
                     witness = list(w)
+                if best["gas"] is None or g < best["gas"]:
+                    witness_gas = list(w)
                 best["gas"] = g if best["gas"] is None else min(best["gas"], g)
                 best["size"] = s if best["size"] is None else min(best["size"], s)
         if depth == max_len:
@@ -104,4 +111,4 @@ def search(sfs, max_len, max_height=None, max_states=400000, size_cap=None, push
             exhausted = False
             break
         layer = nxt
-    return {"best": best, "witness": witness, "exhausted": exhausted, "states": seen_total}
+    return {"best": best, "witness": witness, "witness_gas": witness_gas, "exhausted": exhausted, "states": seen_total}
